@@ -199,6 +199,13 @@ func TestInvalidatorConcurrent(t *testing.T) {
 
 		inv := &cache.Invalidator{SkipInterval: time.Duration(skipMs) * time.Millisecond}
 
+		// pile-up scenario (every other run): the first accepted run is slower than SkipInterval, callers arrive
+		// while it is running (before and after SkipInterval has elapsed) and shortly after it has ended
+		pileup := run%2 == 1 && ncb > 0
+		slow := time.Duration(skipMs)*time.Millisecond*12/10 + time.Duration(rng.Intn(skipMs*400))*time.Microsecond
+
+		var cbCount int64
+
 		for i := 1; i <= ncb; i++ {
 			i := i
 
@@ -207,12 +214,16 @@ func TestInvalidatorConcurrent(t *testing.T) {
 				rec(map[string]interface{}{"ev": "cb", "c": c, "i": i, "ts": us(), "r": ""})
 				// mostly quick, sometimes slower than SkipInterval: other callers must then wait on the mutex
 				d := time.Duration(rng.Intn(300)) * time.Microsecond
-				if rng.Intn(6) == 0 {
+				if first := atomic.AddInt64(&cbCount, 1) == 1; pileup {
+					if first {
+						d = slow
+					}
+				} else if rng.Intn(6) == 0 {
 					d = time.Duration(skipMs)*time.Millisecond + time.Duration(rng.Intn(skipMs*500))*time.Microsecond
 				}
 
 				time.Sleep(d)
-				rec(map[string]interface{}{"ev": "cbx", "c": c, "i": i, "ts": 0, "r": ""})
+				rec(map[string]interface{}{"ev": "cbx", "c": c, "i": i, "ts": us(), "r": ""})
 			})
 		}
 
@@ -222,9 +233,18 @@ func TestInvalidatorConcurrent(t *testing.T) {
 			wg.Add(1)
 
 			delay := time.Duration(rng.Intn(skipMs*1500)) * time.Microsecond
+			first := time.Duration(0)
+
+			if pileup && g > 0 {
+				// arrival somewhere in (0.1 Skip, slow + 0.9 Skip); the second call of the caller follows within a SkipInterval
+				first = time.Duration(skipMs)*time.Millisecond/10 + time.Duration(rng.Int63n(int64(slow)+int64(skipMs)*800*int64(time.Microsecond)))
+				delay = time.Duration(rng.Intn(skipMs*900)) * time.Microsecond
+			}
 
 			go func() {
 				defer wg.Done()
+
+				time.Sleep(first)
 
 				for k := 0; k < perCaller; k++ {
 					c := "c" + itoa(int(atomic.AddInt64(&callID, 1)))
